@@ -336,7 +336,7 @@ pub fn run(ctx: &mut LaneCtx) {
     ctx.run_sub(
         SubSpec {
             name: "live-modules",
-            cases: (960, 25_000),
+            cases: (1_440, 25_000),
             rule: "1..6 synthetic ELF images per target (ELF kit: with/without build-id note via PT_NOTE or section, id lengths 0..64 incl. all-zero, with/without SONAME via PT_DYNAMIC/SHT_DYNAMIC, with/without section table, 64/32 bit, LE/BE) in files named with spaces / non-ASCII (also characters outside the Basic Multilingual Plane) / .so.N versions, mapped loader-style in 1..4 parts of differing permissions with optional PROT_NONE gap, or 'APK style' from a non-zero offset, some unlinked after mapping, some non-ELF; direct auxv entry address inside a synthetic module or kernel auxv; 0..3 user mappings containing / partially overlapping / disjoint; oracle in assumptions; non-trivial = >=2 images with different feature sets or a user mapping that suppresses a module; distinct = hash of case",
             strategy: case_strategy().boxed(),
             max_shrink_iters: 150,
